@@ -157,8 +157,8 @@ def dyn_c02(info):
 
 PROPS = {
     "C02": {
-        "proofs": ["ZlProofs.Props.C02", "ZlProofs.Props.Bodies"],  # Bodies: translated_rules_never_panic over the regenerated rule terms
-        "corr": ["walkers", "framework", "bodies"],  # framework: cert_recovered_iff / unrecovered_panic_iff are theorems about the framework model
+        "proofs": ["ZlProofs.Props.C02", "ZlProofs.Props.Bodies", "ZlProofs.Props.CrlBodies"],  # Bodies: translated_rules_never_panic over the regenerated rule terms; CrlBodies: seven CRL bodies (no recovery net) as total functions of the parsed list
+        "corr": ["walkers", "framework", "bodies", "crlmodel"],  # framework: cert_recovered_iff / unrecovered_panic_iff are theorems about the framework model
         "search": [("sweep", "C02")],
         "obligations": [ob_c02_sites],
         "dyn_search": dyn_c02,
@@ -233,8 +233,8 @@ PROPS = {
         "partial": "go-toml itself is not modelled beyond the typed-field abstraction; global sections have no fields in this code base",
     },
     "C06": {
-        "proofs": ["ZlProofs.Props.C06", "ZlProofs.Props.Bodies"],  # Bodies: translated_rules_severity, on the rule terms rather than on extracted status sets
-        "corr": ["framework", "bodies"],  # framework_adds_only is a theorem about the framework model: NA, NE and fatal are all the wrapper adds
+        "proofs": ["ZlProofs.Props.C06", "ZlProofs.Props.Bodies", "ZlProofs.Props.CrlBodies"],  # Bodies: translated_rules_severity, on the rule terms rather than on extracted status sets; CrlBodies: crl_statuses, crl_warn_only_known
+        "corr": ["framework", "bodies", "crlmodel"],  # framework_adds_only is a theorem about the framework model: NA, NE and fatal are all the wrapper adds
         "search": [("sweep", "C06")],
         "dyn_search": dyn_c06,
         "post": [post_observed_statuses],
